@@ -98,6 +98,8 @@ def run_units(ctx: Ctx, units: t.Sequence[Unit]) -> None:
     for ui, u in enumerate(units):
         st = {"cases": len(u.cases), "disagreements": 0, "impl_errors": {}, "sizes": {}}
         dis = 0
+        found_failing = False
+        nff = 0
         for ci, c in enumerate(u.cases):
             m = model_out[pos]
             pos += 1
@@ -115,7 +117,9 @@ def run_units(ctx: Ctx, units: t.Sequence[Unit]) -> None:
                 ctx.samples.append({"unit": u.name, "input": all_cases[pos - 1][1][:300], "model": m[:300], "impl": i[:300]})
             if _model_bucket(u, m) != _model_bucket(u, i):
                 dis += 1
-                if dis <= 3:
+                # look at disagreements until one of them is a failing input of the property (at most 400 per unit);
+                # record at most 3 disagreements that are not
+                if not found_failing and dis <= 400:
                     why = None
                     if u.prop_pred is not None:
                         try:
@@ -127,10 +131,15 @@ def run_units(ctx: Ctx, units: t.Sequence[Unit]) -> None:
                         # the model's output is the proved right answer for this unit
                         kind = "failing-input"
                         why = "implementation output differs from the proved model output"
-                    ctx.violation(kind, f"correspondence:{u.name}",
-                                  {"unit": u.name, "model_unit": u.model_unit, "input": all_cases[pos - 1][1],
-                                   "expected_model": m[:2000], "observed_impl": i[:2000], "why": why},
-                                  key=f"{u.name}:{all_cases[pos - 1][1][:80]}")
+                    if kind == "failing-input":
+                        found_failing = True
+                    if kind == "failing-input" or nff < 3:
+                        if kind != "failing-input":
+                            nff += 1
+                        ctx.violation(kind, f"correspondence:{u.name}",
+                                      {"unit": u.name, "model_unit": u.model_unit, "input": all_cases[pos - 1][1],
+                                       "expected_model": m[:2000], "observed_impl": i[:2000], "why": why},
+                                      key=f"{u.name}:{all_cases[pos - 1][1][:80]}")
         st["disagreements"] = dis
         ctx.corr[u.name] = st
 
